@@ -513,6 +513,29 @@ func (c *Ctx) cloneIsDeep() {
 			}
 			// append([]T(nil), m.f...) style copies are fresh: st.Val is then the append call, not the load
 		}
+		// the decoders keep views of their input (topic, payload, header flags): a clone decoded from a buffer of the
+		// original shares that buffer
+		for _, in := range b.Instrs {
+			call, ok := in.(*ssa.Call)
+			if !ok || call.Common().IsInvoke() || len(call.Common().Args) < 2 {
+				continue
+			}
+			f := call.Common().StaticCallee()
+			if f == nil || f.Name() != "Decode" || ir.SeeThrough(call.Common().Args[0]) == recv {
+				continue
+			}
+			a := call.Common().Args[1]
+			for i := 0; i < 4; i++ {
+				if sl, ok := a.(*ssa.Slice); ok {
+					a = sl.X
+					continue
+				}
+				break
+			}
+			if fromRecv(a) {
+				bad = append(bad, c.P.InstrPos(call)+" (decoded from a buffer of the original)")
+			}
+		}
 	}
 	c.R.Check(len(bad) == 0, ruleG7, "PublishMessage.Clone:shares-nothing-with-the-original", c.P.Pos(fn.Pos()), "no slice or struct value of the receiver is stored into the clone", "Clone copies slice headers of the original into the clone ("+joinStr(bad, ", ")+"): a mutator applied to the clone (SetQoS on the retained-delivery path) rewrites bytes of the stored retained message and of its encoded image")
 }
